@@ -33,7 +33,7 @@ type kase struct {
 	Groups bool `json:"groups,omitempty"`
 }
 
-var formats = []string{"fasta", "fastq", "fastq-solexa", "fastq-illumina1_3", "bed3", "bed4", "bed5", "bed6", "bed12", "gff"}
+var formats = []string{"fasta", "fastq", "fastq-solexa", "fastq-illumina1_3", "bed3", "bed4", "bed5", "bed6", "bed12", "gff", "gff-notime"} // gff-notime: the GFF reader with date parsing switched off (TimeFormat "")
 
 // fastqEncoding: the quality encoding of the template a FASTQ format name stands for.
 func fastqEncoding(format string) alphabet.Encoding {
@@ -82,6 +82,9 @@ func readAll(k kase) (calls int, records int, err error, bad string) {
 		read = func() (interface{}, error) { f, e := r.Read(); return f, e }
 	default:
 		r := gff.NewReader(bytes.NewReader(k.Data))
+		if k.Format == "gff-notime" {
+			r.TimeFormat = ""
+		}
 		read = func() (interface{}, error) { f, e := r.Read(); return f, e }
 	}
 	for {
@@ -282,7 +285,7 @@ func expect(format string, toks []token) (bool, string) {
 				return true, t.invalid
 			}
 		}
-	case format == "gff":
+	case strings.HasPrefix(format, "gff"):
 		open := false
 		for _, t := range toks {
 			switch {
@@ -335,7 +338,7 @@ func tokensFor(format string) []token {
 		return fastaTokens
 	case "fastq", "fastq-solexa", "fastq-illumina1_3":
 		return fastqTokens
-	case "gff":
+	case "gff", "gff-notime":
 		return gffTokens
 	}
 	var n int
@@ -355,6 +358,7 @@ var seeds = map[string][]string{
 	"bed5":              {"chr1\t10\t20\tn1\t3\nchr2\t0\t5\tn2\t0\n"},
 	"bed6":              {"chr1\t10\t20\tn1\t3\t+\nchr2\t0\t5\tn2\t0\t-\n"},
 	"bed12":             {"chr1\t10\t20\tn1\t3\t+\t12\t18\t1,2,3\t2\t3,4\t0,6\nchr2\t0\t5\tn2\t0\t.\t0\t0\t0\t1\t5\t0\n"},
+	"gff-notime":        {"##gff-version 2\n##date 2020-1-02\nchr1\tsrc\tgene\t3\t9\t0.5\t+\t0\tID g1\n##date x\n##DNA s1\n##acgt\n##end-DNA\nchr1\tsrc\texon\t4\t6\t.\t-\t.\n"},
 	"gff":               {"##gff-version 2\n##sequence-region chr1 1 100\nchr1\tsrc\tgene\t3\t9\t0.5\t+\t0\tID g1; Note \"a b\"\tfree text\n# c\n##DNA s1\n##acgt\n##ac\n##end-DNA\nchr1\tsrc\texon\t4\t6\t.\t-\t.\n"},
 }
 
